@@ -366,6 +366,45 @@ def check_c16(args):
                     if val[0] != "n" and kinds.get(t, val[0]) != val[0]:
                         v.violation({"sql": c["sql"], "value": val, "type": t}, f"{c['sql']}: value {val} in a {t} column")
                         break
+    # ---- (a') every pair of column types under every arithmetic / comparison operator, CASE with branches of
+    # different types, every aggregate of every type: static type == array variant
+    tcols = [("i", "smallint", "3"), ("j", "int", "4"), ("k", "bigint", "5"), ("f", "double", "1.5"), ("d", "decimal(10,2)", "2.25"),
+             ("b", "boolean", "true"), ("s", "varchar", "'x'"), ("t", "date", "date '2020-01-02'")]
+    exprs = []
+    nums = [c for c, ty, _ in tcols if ty not in ("boolean", "varchar", "date")]
+    for x in nums:
+        for y in nums:
+            for op in ("+", "-", "*", "/", "%", "<", "="):
+                exprs.append(f"{x} {op} {y}")
+            exprs.append(f"case when b then {x} else {y} end")
+        exprs += [f"- {x}", f"sum({x})", f"min({x})", f"max({x})", f"count({x})", f"avg({x})", f"{x} + 1", f"{x} * 1.5",
+                  f"cast({x} as varchar)", f"{x} is null", f"{x} in (1, 2)", f"{x} between 1 and 5"]
+    exprs += ["s || s", "s like 'x%'", "min(s)", "max(t)", "count(*)", "b and b", "not b", "s = s", "t < t", "min(b)",
+              "case when b then s else 'y' end", "replace(s, 'x', 'y')"]
+    runs3 = []
+    for k0 in range(0, len(exprs), 12):
+        part = exprs[k0:k0 + 12]
+        for eng in ("mem", "disk"):
+            steps = [{"sql": "create table ty(" + ", ".join(f"{c} {ty}" for c, ty, _ in tcols) + ")"},
+                     {"sql": "insert into ty values (" + ", ".join(v0 for _, _, v0 in tcols) + ")"},
+                     {"sql": "insert into ty values (" + ", ".join("NULL" for _ in tcols) + ")"}]
+            steps += [{"sql": f"select {e} from ty", "stypes": True} for e in part]
+            runs3.append({"id": f"{k0}.{eng}", "engine": eng, "steps": steps, "exprs": part})
+    outs3 = run_sharded("sql", runs3, tag="c16t", timeout=1200, case_timeout=60)
+    npairs = 0
+    for run, out in zip(runs3, outs3):
+        if out.get("hang") or "fatal" in out:
+            raise ToolError(f"type sweep failed to run: {out}")
+        for e, r in zip(run["exprs"], out["res"][3:]):
+            if not r["ok"]:
+                continue            # not accepted / not evaluable: no result column to compare
+            st, rt = r.get("stypes"), r.get("types", [])
+            if not isinstance(st, list) or not r["rows"]:
+                continue
+            npairs += 1
+            if rt != st:
+                v.violation({"sql": f"select {e} from ty", "static": st, "runtime": rt, "engine": run["engine"]},
+                            f"[{run['engine']}] select {e} from ty: result arrays are {rt}, the type checker derived {st}")
     # ---- (b) INSERT conversions and constraints (cases enumerated by TLC from Store.tla)
     scases, r = store_cases()
     runs2, meta = [], []
@@ -440,7 +479,7 @@ def check_c16(args):
                 "enumerated by TLC from Store.tla (column type x nullability x value class x VALUES / SELECT / "
                 "column subset), outcome must be in the set Store.tla allows",
         "samples": [{"sql": cases[0]["sql"]}, scases[0]],
-        "queries_type_checked": checked, "store_cases": nstore, "static_types_unavailable": bad_static,
+        "queries_type_checked": checked, "type_pair_expressions": npairs, "store_cases": nstore, "static_types_unavailable": bad_static,
         "known_findings_seen": sorted(v.seen_known)},
         ["value classes are concretised by a hand-written literal table (lib/typecheck.py CONCRETE)",
          "types covered: smallint, int, bigint, bool, varchar"], time.time() - t0, len(v.violations))
